@@ -1241,6 +1241,15 @@ class EEA:
             e = self.merge(e, self.expr(ce, st))
             if isinstance(ce, ast.Call):
                 fact = self.prog.call_fact(fr.module, ce)
+                if fact and fact[0] and fact[0].startswith(PKG):
+                    # a generator-based context manager of the repository that was not written out at parse time and
+                    # wraps its yield in try/except/finally: it handles the exceptions of the with-body - not modelled
+                    dfn_ = self.prog.lookup_fullname(fact[0])
+                    h_ = dfn_.obj if dfn_ is not None and dfn_.kind == "func" else None
+                    if h_ is not None and any(d.split("(")[0].rsplit(".", 1)[-1] in ("contextmanager", "asynccontextmanager") for d in h_.decorator_names):
+                        for t_ in ast.walk(h_.node):
+                            if isinstance(t_, ast.Try) and (t_.handlers or t_.finalbody) and any(isinstance(y_, (ast.Yield, ast.YieldFrom)) for b_ in t_.body for y_ in ast.walk(b_)):
+                                raise AnalysisError(f"the context manager {h_.qualname} handles exceptions of the with-body (try around its yield) and is not written out at `{norm(ce)[:50]}` ({fr.module.relpath}:{s.lineno}): not modelled")
                 if fact and fact[0] in S.CM_EXIT_RAISES:
                     for exc_ in S.CM_EXIT_RAISES[fact[0]]:
                         self.obligations += 1
